@@ -1,6 +1,7 @@
 """One process() step of each upstream stage (Filter, Splitter, Selection, PreSet, Uniquness) with the successor's
 answer and the getter's result free: contract, Break forwarding, Err propagation, frame condition."""
 import json
+import re
 import z3
 from .lib import *
 from .report import Candidate, Broken
@@ -124,6 +125,14 @@ def stage_steps(ctx, stages=None, want=('contract', 'break', 'err', 'frame')):
     nmax = 2 if ctx.quick else 3
     run.bounds['stage step'] = f'one process() call per stage; the getter answers absent/true/false/null/array of 0..{nmax} opaque elements; every successor answer (Continue/Break/Err) free at every call'
     ex = ctx.exec(summaries=summaries(nmax), max_visits=4 * nmax + 8)
+    # every inherent method of a stage struct found in the MIR is executed (a private helper added by an edit is code of the stage)
+    for name_, (prefix_, sname_) in STAGES.items():
+        for n in ctx.fns:
+            m = re.match(prefix_ + r'(\w+)$', n)
+            if not m or m.group(1) in ('process', 'complete', 'start', 'fmt', 'clone', 'from_str', 'create_process', 'new'): continue
+            f = ctx.fns[n]
+            if f.params and re.search(r'\b%s\b' % sname_, f.params[0][1]):
+                ex.inline.append((r'%s::%s$' % (sname_, m.group(1)), n))
     allc = []
     for name in (stages or list(STAGES)):
         prefix, sname = STAGES[name]
